@@ -38,6 +38,9 @@ def snapshot (s : S) : String :=
   s!"N[{n}] A[{a}] E[{e}] P[{p}]"
 
 structure ISnap where
+  /-- the spawn calls' own results as the implementation reported them (`R[id:ok|err|cut|pending,…]`;
+  absent in harnesses that do not record them) -/
+  results : List (Nat × String) := []
   names : List (Nat × Nat)
   actors : List (Nat × String × List Nat × List Nat × Nat)   -- id, phase, groups, children, handled
   events : List (Nat × Nat × String)
@@ -62,14 +65,36 @@ def parseSnap (s : String) : Option ISnap := do
     match r.splitOn ">" with
     | [p, ce] => (match splitOnChar ce ':' with | [c, k] => (do pure (← p.toNat?, ← c.toNat?, k)) | _ => none)
     | _ => none)
-  pure { names, actors, events, ports := p.toList }
+  let results := match between s "R" with
+    | some r => (if r == "" then [] else splitOnChar r ',').filterMap (fun kv =>
+        match splitOnChar kv ':' with | [k, v] => (do pure (← k.toNat?, v)) | _ => none)
+    | none => []
+  pure { results, names, actors, events, ports := p.toList }
 
-/-- C08 on the implementation's snapshot: every actor whose spawn (per the op history) did not
-produce a running actor has left nothing behind. -/
+/-- the observation without the `R[…]` part (which the model does not predict: it is the
+implementation's own verdict on who failed, used by the oracle) -/
+def stripResults (s : String) : String :=
+  match s.splitOn " R[" with
+  | [a, _] => a
+  | _ => s
+
+/-- C08 on the implementation's snapshot: every actor whose spawn did not produce a running actor
+has left nothing behind. WHO failed is taken from the implementation's own spawn results (`R[…]`:
+the spawn call / the instant start task returned Err, or its future was dropped) where the harness
+records them; the model's flag is used only for harnesses that do not, and every disagreement
+between the two is reported (`c08.failed-flag-mismatch`). -/
 def judge (m : S) (snap : ISnap) : List String := Id.run do
   let mut bad : List String := []
   for (a, x) in List.zip (List.range m.actors.length) m.actors do
-    if x.failedStart then
+    let implFailed : Bool := match snap.results.find? (fun r => r.1 == a) with
+      | some (_, v) => v == "err" || v == "cut"
+      | none => x.failedStart
+    match snap.results.find? (fun r => r.1 == a) with
+    | some (_, v) =>
+      if v != "pending" && (v == "err" || v == "cut") != x.failedStart then bad := bad ++ ["c08.failed-flag-mismatch"]
+      if v == "pending" && x.phase != .starting then bad := bad ++ ["c08.failed-flag-mismatch"]
+    | none => pure ()
+    if implFailed == true then
       match snap.actors.find? (fun r => r.1 == a) with
       | some (_, ph, groups, _, handled) =>
         if ph != "stopped" then bad := bad ++ ["c08.failed-start-not-stopped"]
@@ -126,7 +151,8 @@ def step0 (m : S) (op impl : String) : S × StepOut :=
     let orc := match parseSnap impl with
       | some snap => judge m snap
       | none => ["unparsable"]
-    (m, { model := snapshot m, oracle := orc, nontrivial := m.actors.any (·.failedStart) })
+    (m, { model := snapshot m ++ (if (impl.splitOn " R[").length == 2 then " R[" ++ ((impl.splitOn " R[").getD 1 "") else ""),
+          oracle := orc, nontrivial := m.actors.any (·.failedStart) })
   | _ => (m, { model := "bad-op" })
 
 /-- driver state: the model and the cuts of queued starts that have not taken effect yet -/
